@@ -424,6 +424,33 @@ func Decorate(op *Op, schema *gast.Schema) []*Op {
 					return true
 				}, i)
 			}
+			// the same field again inside a fragment on one concrete implementer of an
+			// abstract parent (before / after the original): merging across a type
+			// condition
+			if pd := schema.Types[nd.Parent]; pd != nil && (pd.Kind == gast.Interface || pd.Kind == gast.Union) {
+				for _, impl := range schema.GetPossibleTypes(pd) {
+					for _, before := range []bool{false, true} {
+						impl, before := impl, before
+						emit(fmt.Sprintf("dup-on-%s(before=%v)", impl.Name, before), func(c *Op, s site) bool {
+							x := (*s.list)[s.idx]
+							if x.Name == "__typename" {
+								return false
+							}
+							fr := &Node{Kind: 1, Cond: impl.Name, Parent: x.Parent, Sub: []*Node{x.clone()}}
+							fr.Sub[0].Parent = impl.Name
+							l := append([]*Node(nil), (*s.list)[:s.idx]...)
+							if before {
+								l = append(l, fr, x)
+							} else {
+								l = append(l, x, fr)
+							}
+							l = append(l, (*s.list)[s.idx+1:]...)
+							*s.list = l
+							return true
+						}, i)
+					}
+				}
+			}
 			emit("named-fragment", func(c *Op, s site) bool {
 				x := (*s.list)[s.idx]
 				if x.Parent == "" {
